@@ -157,11 +157,15 @@ func rollWriterAnchor(add func(string, int64, bool)) {
 	add("loggerRollReopenAfterRotate", v, true)
 }
 
-// checkPanicAnchor (Model/PanicExit.lean): the statement order of the recover branch of
-// tars.CheckPanic, as decimal digits, first statement first: 1 = debug.DumpStack(…),
-// 2 = rogger.FlushLogger() as a plain call statement, 3 = os.Exit(…), 4 = a deferred FlushLogger.
-// Statements that mention none of the three are skipped; one that hides a flush or an exit inside
-// (an if, a loop, a goroutine, a closure that is not deferred) is a shape the model does not have.
+// checkPanicAnchor (Model/PanicExit.lean): the statement order of the code of tars.CheckPanic that
+// runs after a non-nil recover, as decimal digits, first statement first: 1 = debug.DumpStack(…),
+// 2 = rogger.FlushLogger() as a plain call, 3 = os.Exit(…), 4 = a deferred FlushLogger.
+// Both spellings are read: `if r := recover(); r != nil { BODY }` (also with `r := recover()` on
+// its own line) and the early return `r := recover(); if r == nil { return }; BODY`.
+// Simple statements (expression, assignment, declaration) contribute their calls in source order,
+// whatever expression they are nested in; statements that mention none of the events are skipped;
+// a flush or an exit under control flow, in a goroutine or in a closure that is not deferred is a
+// shape the model does not have.
 func checkPanicAnchor(add func(string, int64, bool)) {
 	const rel = "tars/panic.go"
 	f := parse(rel)
@@ -172,21 +176,59 @@ func checkPanicAnchor(add func(string, int64, bool)) {
 	if fd == nil || fd.Body == nil {
 		return
 	}
-	var branch *ast.IfStmt
-	ast.Inspect(fd.Body, func(n ast.Node) bool {
-		if is, ok := n.(*ast.IfStmt); ok && branch == nil {
-			src := exprStr(f.fset, is.Cond)
-			if is.Init != nil {
-				src += " " + exprStr(f.fset, is.Init)
-			}
-			if strings.Contains(src, "recover()") || strings.Contains(src, "!= nil") {
-				branch = is
-			}
+	// names bound to recover()
+	recv := map[string]bool{"recover()": true}
+	bind := func(st ast.Stmt) {
+		if as, ok := st.(*ast.AssignStmt); ok && len(as.Lhs) == 1 && len(as.Rhs) == 1 && exprStr(f.fset, as.Rhs[0]) == "recover()" {
+			recv[exprStr(f.fset, as.Lhs[0])] = true
 		}
-		return branch == nil
-	})
-	if branch == nil {
-		anchorLost("%s: CheckPanic: recover branch `if r := recover(); r != nil { … }` not found", rel)
+	}
+	// cond is `<recovered> op nil` (either side)
+	nilTest := func(e ast.Expr, op token.Token) bool {
+		if p, ok := e.(*ast.ParenExpr); ok {
+			e = p.X
+		}
+		be, ok := e.(*ast.BinaryExpr)
+		if !ok || be.Op != op {
+			return false
+		}
+		x, y := exprStr(f.fset, be.X), exprStr(f.fset, be.Y)
+		return (recv[x] && y == "nil") || (recv[y] && x == "nil")
+	}
+	endsInReturn := func(b *ast.BlockStmt) bool {
+		if b == nil || len(b.List) == 0 {
+			return false
+		}
+		_, ok := b.List[len(b.List)-1].(*ast.ReturnStmt)
+		return ok
+	}
+	var body []ast.Stmt
+	found := false
+	for i, st := range fd.Body.List {
+		bind(st)
+		is, ok := st.(*ast.IfStmt)
+		if !ok {
+			continue
+		}
+		if is.Init != nil {
+			bind(is.Init)
+		}
+		if nilTest(is.Cond, token.NEQ) {
+			body, found = is.Body.List, true
+			break
+		}
+		if nilTest(is.Cond, token.EQL) && endsInReturn(is.Body) {
+			if is.Else != nil {
+				if eb, ok := is.Else.(*ast.BlockStmt); ok {
+					body = append(body, eb.List...)
+				}
+			}
+			body, found = append(body, fd.Body.List[i+1:]...), true
+			break
+		}
+	}
+	if !found {
+		anchorLost("%s: CheckPanic: neither `if r := recover(); r != nil { … }` nor `r := recover(); if r == nil { return }; …` found", rel)
 		return
 	}
 	kind := func(call *ast.CallExpr) int64 {
@@ -201,46 +243,82 @@ func checkPanicAnchor(add func(string, int64, bool)) {
 		}
 		return 0
 	}
-	mentions := func(n ast.Node) (flush, exit bool) {
-		ast.Inspect(n, func(m ast.Node) bool {
-			if c, ok := m.(*ast.CallExpr); ok {
-				switch kind(c) {
-				case 2:
-					flush = true
-				case 3:
-					exit = true
+	// events of a node in source order; hidden = a flush/exit inside a closure
+	events := func(n ast.Node) (evs []int64, hidden bool) {
+		depth := 0
+		var walk func(ast.Node)
+		walk = func(m ast.Node) {
+			ast.Inspect(m, func(x ast.Node) bool {
+				switch c := x.(type) {
+				case *ast.FuncLit:
+					depth++
+					walk(c.Body)
+					depth--
+					return false
+				case *ast.CallExpr:
+					if k := kind(c); k != 0 {
+						if depth > 0 && k != 1 {
+							hidden = true
+						}
+						evs = append(evs, k)
+					}
 				}
-			}
-			return true
-		})
+				return true
+			})
+		}
+		walk(n)
 		return
 	}
 	var seq int64
 	n := 0
-	for _, st := range branch.Body.List {
-		switch x := st.(type) {
-		case *ast.ExprStmt:
-			if c, ok := x.X.(*ast.CallExpr); ok {
-				if k := kind(c); k != 0 {
-					seq = seq*10 + k
-					n++
-					continue
-				}
-			}
-		case *ast.DeferStmt:
-			if fl, ex := mentions(x); fl && !ex {
-				seq = seq*10 + 4
-				n++
-				continue
+	lost := func(st ast.Stmt) {
+		anchorLost("%s: CheckPanic: `%s` hides a flush or an exit inside a statement the model does not have", rel, strings.SplitN(exprStr(f.fset, st), "\n", 2)[0])
+	}
+	for _, st := range body {
+		evs, hidden := events(st)
+		hasFE := false
+		for _, k := range evs {
+			if k == 2 || k == 3 {
+				hasFE = true
 			}
 		}
-		if fl, ex := mentions(st); fl || ex {
-			anchorLost("%s: CheckPanic: `%s` hides a flush or an exit inside a statement the model does not have", rel, strings.SplitN(exprStr(f.fset, st), "\n", 2)[0])
-			return
+		switch st.(type) {
+		case *ast.ExprStmt, *ast.AssignStmt, *ast.DeclStmt:
+			if hidden {
+				lost(st)
+				return
+			}
+			for _, k := range evs {
+				seq = seq*10 + k
+				n++
+			}
+		case *ast.DeferStmt:
+			flush, exit := false, false
+			for _, k := range evs {
+				flush = flush || k == 2
+				exit = exit || k == 3
+			}
+			if exit {
+				lost(st)
+				return
+			}
+			if flush {
+				seq = seq*10 + 4
+				n++
+			}
+		default:
+			if hasFE {
+				lost(st)
+				return
+			}
+			for _, k := range evs { // a stack dump under control flow: the dump is not what C20 is about
+				seq = seq*10 + k
+				n++
+			}
 		}
 	}
 	if n == 0 || n > 15 {
-		anchorLost("%s: CheckPanic: no DumpStack / FlushLogger / os.Exit statements in the recover branch", rel)
+		anchorLost("%s: CheckPanic: no DumpStack / FlushLogger / os.Exit statements after the non-nil recover", rel)
 		return
 	}
 	add("panicCheckPanicSeq", seq, true)
